@@ -55,7 +55,7 @@ func assignResize(left, right *token) {
 
 func assignLed(p *parser, t *token, left *token) *token {
 	t.Append(left)
-	t.Append(p.Expression(getSymbol(t).Lbp))
+	t.Append(p.Expression(getSymbol(t).Lbp, p.mask...)) // what ends the statement ("{" of a for or if clause) also ends its right-hand side
 	t.Tokens[0] = plural(t.Tokens[0])
 	assignResize(t.Tokens[0], t.Tokens[1])
 	return t
